@@ -4,7 +4,7 @@
    findings, i.e. when the writers' dispatch meets no element that it skips although it holds text. *)
 From TT Require Import Model.Doc Gen.StyleTables Model.Isd Model.SigTimes Model.TimeCode Model.IsdFilters Gen.CueTables Model.CueWriter.
 From TT Require Import Model.CueTriggers Spec.IsdSpec Spec.CueSpec Proofs.Common.ElemInd Proofs.C01.Lwsp Proofs.C01.Main.
-From TT Require Import Proofs.C06.Filters Proofs.C06.Inline Proofs.C06.Loop.
+From TT Require Import Proofs.C02.Complete Proofs.C06.Filters Proofs.C06.Inline Proofs.C06.Loop.
 
 (* ---- the filter lists keep the text ------------------------------------------------------------------------------------ *)
 Definition snapshot_shape (rs : list elem) : bool := regions_shape rs && paragraphs_shape rs.
@@ -205,3 +205,86 @@ Proof.
     apply (G [default_region] (fun _ => None) rs); [constructor; [reflexivity | constructor] | exact H].
   - apply (G (r0 :: l0) (fun r => e_id (eattrs r)) rs Hk H).
 Qed.
+
+(* ---- the whole output: all visible characters of all snapshots, once each, in order ------------------------------------------ *)
+(* triggers of the recorded findings writers-skip-ruby / vtt-nested-div-lost: in some snapshot the dispatch of the writer meets an
+   element it has no case for and that holds text *)
+Definition trig_lost_srt (seq : list (Q * list elem)) : bool :=
+  existsb (fun x => negb (srt_sees_all (apply_filters srt_filters (snd x)))) seq.
+Definition trig_lost_vtt (cfg : vtt_config) (seq : list (Q * list elem)) : bool :=
+  match vtt_filters cfg with
+  | Some fs => existsb (fun x => negb (vtt_sees_all (apply_filters fs (snd x)))) seq
+  | None => false
+  end.
+(* snapshots have the shape snapshots of well-formed documents have: regions hold bodies, bodies divisions, text sits in paragraphs *)
+Definition seq_shape (seq : list (Q * list elem)) : bool := forallb (fun x => snapshot_shape (snd x)) seq.
+Definition seq_text (seq : list (Q * list elem)) : text := flat_map (fun x => flat_map leaves_text (snd x)) seq.
+
+Lemma groups_total sees_all fs : forall seq cs,
+  cue_groups (group_ok sees_all fs) seq cs -> seq_shape seq = true ->
+  existsb (fun x => negb (sees_all (apply_filters fs (snd x)))) seq = false ->
+  visc (flat_map cue_chars cs) = visc (seq_text seq).
+Proof.
+  intros seq cs G. induction G as [|t regions seq cs rest [_ Hr] G IH]; intros Hs Ht; [reflexivity|].
+  cbn [seq_shape forallb snd] in Hs. apply andb_true_iff in Hs as [Hs1 Hs2].
+  cbn [existsb snd] in Ht. apply orb_false_iff in Ht as [Ht1 Ht2]. apply negb_false_iff in Ht1.
+  unfold seq_text. cbn [flat_map snd]. rewrite flat_map_app, !visc_app, (Hr Hs1 Ht1). f_equal. apply IH; assumption.
+Qed.
+
+Theorem srt_text_total fmt seq cs :
+  seq_shape seq = true -> trig_lost_srt seq = false -> srt_cues fmt seq = Ok cs -> visc (flat_map cue_chars cs) = visc (seq_text seq).
+Proof. intros Hs Ht H. exact (groups_total _ _ seq cs (srt_cues_groups fmt seq cs H) Hs Ht). Qed.
+Theorem vtt_text_total cfg seq cs css :
+  seq_shape seq = true -> trig_lost_vtt cfg seq = false -> vtt_cues cfg seq = Ok (cs, css) -> visc (flat_map cue_chars cs) = visc (seq_text seq).
+Proof.
+  intros Hs Ht H. unfold trig_lost_vtt in Ht. destruct (vtt_filters cfg) as [fs|] eqn:Ef.
+  - exact (groups_total _ _ seq cs (vtt_cues_groups cfg fs seq cs css Ef H) Hs Ht).
+  - unfold vtt_cues in H. rewrite Ef in H. discriminate.
+Qed.
+
+(* ---- projections used by Properties/C06.v --------------------------------------------------------------------------------------- *)
+Lemma times_srt fmt seq cs :
+  srt_cues fmt seq = Ok cs -> cue_groups (fun t next _ group => Forall (times_ok t next) group) seq cs.
+Proof.
+  intros H. eapply cue_groups_impl; [|exact (srt_cues_groups fmt seq cs H)]. intros t n r x [Hx _]. exact Hx.
+Qed.
+Lemma times_vtt cfg seq cs css :
+  vtt_cues cfg seq = Ok (cs, css) -> cue_groups (fun t next _ group => Forall (times_ok t next) group) seq cs.
+Proof.
+  intros H. assert (Hfs : exists fs, vtt_filters cfg = Some fs)
+    by (unfold vtt_cues in H; destruct (vtt_filters cfg) as [fs|]; [eexists; reflexivity | discriminate]).
+  destruct Hfs as [fs Hfs]. eapply cue_groups_impl; [|exact (vtt_cues_groups cfg fs seq cs css Hfs H)]. intros t n r x [Hx _]. exact Hx.
+Qed.
+Lemma sequence_times d seq : isd_sequence d = Ok seq -> sig d = Ok (map fst seq).
+Proof.
+  intros H. destruct (Proofs.C02.Complete.sequence_spec d seq H) as (l & Hl & Hm & _). rewrite Hm. exact Hl.
+Qed.
+Lemma text_partial_srt fmt seq cs :
+  srt_cues fmt seq = Ok cs -> cue_groups (fun _ _ regions group => text_ok srt_sees_all srt_filters regions group) seq cs.
+Proof.
+  intros H. eapply cue_groups_impl; [|exact (srt_cues_groups fmt seq cs H)]. intros t n r x [_ Hx]. exact Hx.
+Qed.
+Lemma text_partial_vtt cfg fs seq cs css :
+  vtt_filters cfg = Some fs -> vtt_cues cfg seq = Ok (cs, css) ->
+  cue_groups (fun _ _ regions group => text_ok vtt_sees_all fs regions group) seq cs.
+Proof.
+  intros Hfs H. eapply cue_groups_impl; [|exact (vtt_cues_groups cfg fs seq cs css Hfs H)]. intros t n r x [_ Hx]. exact Hx.
+Qed.
+
+(* a non-trivial snapshot sequence meeting the hypotheses: two regions, two divisions each with a paragraph, a nested span, a br *)
+Definition c06_example : list (Q * list elem) :=
+  let tx s := Elem (mkAttrs KText None None None None [] [] false [] s) [] in
+  let sp cs := Elem (mkAttrs KSpan None None None None [] [] false [] []) cs in
+  let br := Elem (mkAttrs KBr None None None None [] [] false [] []) [] in
+  let p cs := Elem (mkAttrs KP None None None None [] [] false [] []) cs in
+  let dv cs := Elem (mkAttrs KDiv None None None None [] [] false [] []) cs in
+  let bd cs := Elem (mkAttrs KBody None None None None [] [] false [] []) cs in
+  let rg i cs := Elem (mkAttrs KRegion (Some [114; i]) None None None [] [] false [] []) cs in
+  [(Qmake 1 1, [rg 48 [bd [dv [p [sp [tx [97; 32]; sp [tx [98]]]; br]]; dv [p [sp [tx [99]]]]]]; rg 49 [bd [dv [dv [p [sp [tx [100]]]]]]]]);
+   (Qmake 2 1, [])].
+Lemma c06_example_ok :
+  seq_shape c06_example = true /\ trig_lost_srt c06_example = false /\
+  trig_lost_vtt (mkVttConfig false false true) c06_example = false /\
+  exists cs, srt_cues true c06_example = Ok cs /\ flat_map cue_chars cs = [97; 32; 98; 10; 10; 99; 10; 100] /\
+             visc (seq_text c06_example) = [97; 98; 99; 100].
+Proof. split; [reflexivity|]. split; [reflexivity|]. split; [reflexivity|]. eexists. split; [reflexivity|]. split; reflexivity. Qed.
